@@ -1,6 +1,7 @@
 //! dnsverif: property-based verification harness for jedisct1/dnssector.
 pub mod enc;
 pub mod gens;
+pub mod history;
 pub mod model;
 pub mod refdec;
 pub mod rrtext;
